@@ -19,6 +19,10 @@ import (
 func runThorough(r *Result, id, repo, verif string) map[string]any {
 	files, _ := filepath.Glob(filepath.Join(verif, "mutants", id, "*.json"))
 	sort.Strings(files)
+	// behaviour-preserving variants (expect SILENT): the check must not fire on them
+	benign, _ := filepath.Glob(filepath.Join(verif, "benign", id, "*.json"))
+	sort.Strings(benign)
+	files = append(files, benign...)
 	type res struct {
 		Name, Outcome, Line string
 	}
@@ -49,6 +53,10 @@ func runThorough(r *Result, id, repo, verif string) map[string]any {
 				oc = "invalid"
 			case strings.HasPrefix(line, "MUTANT-MISSED"):
 				oc = "missed"
+			case strings.HasPrefix(line, "MUTANT-SILENT"):
+				oc = "silent"
+			case strings.HasPrefix(line, "MUTANT-FALSE-ALARM"):
+				oc = "false-alarm"
 			default:
 				if err != nil {
 					line = fmt.Sprintf("%v: %s", err, lastLines(string(out), 3))
@@ -58,13 +66,17 @@ func runThorough(r *Result, id, repo, verif string) map[string]any {
 		}(i, f)
 	}
 	wg.Wait()
-	det, skipped := 0, 0
+	det, skipped, silent := 0, 0, 0
 	var list []map[string]string
 	for _, x := range results {
 		list = append(list, map[string]string{"mutant": x.Name, "outcome": x.Outcome, "detail": x.Line})
 		switch x.Outcome {
 		case "detected":
 			det++
+		case "silent":
+			silent++
+		case "false-alarm":
+			r.broken("self-test: the check fires on the behaviour-preserving variant %s: %s", x.Name, x.Line)
 		case "skipped":
 			skipped++ // the anchored text is no longer in /repo (the tree was changed): not a failure
 		default:
@@ -75,9 +87,10 @@ func runThorough(r *Result, id, repo, verif string) map[string]any {
 	b, _ := json.Marshal(list)
 	_ = b
 	return map[string]any{
-		"selftest_variants":     len(files),
-		"selftest_detected":     det,
-		"selftest_skipped":      skipped,
+		"selftest_variants": len(files),
+		"selftest_detected": det,
+		"selftest_skipped":  skipped,
+		"selftest_silent_on_behaviour_preserving_variants": silent,
 		"selftest_results":      list,
 		"disagreements_checked": len(files),
 		"selftest_rule":         "each variant is an overlay edit of /repo that still type-checks and breaks exactly one rule instance; the checker must report a violation whose key contains the expected rule instance",
